@@ -463,6 +463,49 @@ theorem C07_before_fix_witnesses :
     findCompoundOld A b!"myFooBar_" b!"foo_bar" b!"baz_qux" libStyles = some ⟨b!"myFooBar_", b!"my_BazQux_", .snake⟩ := by
   decide +kernel
 
+-- 4b. dotted paths: the extractor's dot splitting --------------------------------------------------------------------
+
+/-- whichever shape the dot splitting has, a recorded segment is as long as its span; with the trimming shape no segment
+    starts with a hyphen -/
+theorem splitDots_spans {trim : Bool} : ∀ (parts : List Bytes) (pos : Nat) {s e : Nat} {t : Bytes},
+    (s, e, t) ∈ splitDots trim pos parts → e = s + t.length ∧ pos ≤ s ∧ t ≠ [] ∧ (trim = true → t.head? ≠ some 45)
+  | [], _, _, _, _, h => by simp [splitDots] at h
+  | p :: ps, pos, s, e, t, h => by
+    rw [splitDots] at h
+    simp only [List.mem_append] at h
+    rcases h with h | h
+    · by_cases hne : (if trim = true then p.dropWhile (· == 45) else p).isEmpty = true
+      · simp only [hne, if_true, List.not_mem_nil] at h
+      · simp only [hne, Bool.false_eq_true, if_false, List.mem_singleton, Prod.mk.injEq] at h
+        obtain ⟨rfl, rfl, rfl⟩ := h
+        refine ⟨rfl, by omega, by simpa using hne, ?_⟩
+        intro ht
+        subst ht
+        simp only [if_true]
+        exact dropWhile_hyphen_head p
+    · obtain ⟨h1, h2, h3, h4⟩ := splitDots_spans ps (pos + p.length + 1) h
+      exact ⟨h1, by omega, h3, h4⟩
+
+/-- finding `dot_segment_leading_hyphen_rejoined`, on the extractor shape of the pinned tree (parts pushed as they are): the
+    part `-foo_bar_wide` of `cfg.-foo_bar_wide` is one identifier, mixes '-' and '_', and is re-joined with '-' -/
+theorem C07_witness_dot_segment_leading_hyphen :
+    findAllG false libStyles b!"x = cfg.-foo_bar_wide;" = [(0, 1, b!"x"), (4, 7, b!"cfg"), (8, 21, b!"-foo_bar_wide")] ∧
+    findEnhancedG false A b!"x = cfg.-foo_bar_wide;" b!"foo_bar" b!"qux_zed" (variantKeys A b!"foo_bar" libStyles) libStyles =
+      [⟨1, 8, 8, 21, b!"-foo_bar_wide", b!"qux-zed-wide"⟩] := by decide +kernel
+
+/-- the same inputs on the shape of the proposed repair (leading hyphens trimmed, start moved with them): the identifier is
+    `foo_bar_wide` at 9..21 and the edit is local; on a hyphen-only segment both shapes edit locally (the trimmed one through the compound
+    matcher, the untrimmed one through the exact pass) -/
+theorem dot_segment_leading_hyphen_in_place :
+    findAllG true libStyles b!"x = cfg.-foo_bar_wide;" = [(0, 1, b!"x"), (4, 7, b!"cfg"), (9, 21, b!"foo_bar_wide")] ∧
+    findEnhancedG true A b!"x = cfg.-foo_bar_wide;" b!"foo_bar" b!"qux_zed" (variantKeys A b!"foo_bar" libStyles) libStyles =
+      [⟨1, 9, 9, 21, b!"foo_bar_wide", b!"qux_zed_wide"⟩] ∧
+    findEnhancedG true A b!".search-form.-foo-bar-wide {}" b!"foo_bar" b!"qux_zed" (variantKeys A b!"foo_bar" libStyles) libStyles =
+      [⟨1, 14, 14, 26, b!"foo-bar-wide", b!"qux-zed-wide"⟩] ∧
+    findEnhancedG false A b!".search-form.-foo-bar-wide {}" b!"foo_bar" b!"qux_zed" (variantKeys A b!"foo_bar" libStyles) libStyles =
+      [⟨1, 14, 14, 21, b!"foo-bar", b!"foo-bar"⟩] := by
+  decide +kernel
+
 -- 5. full strength: any separator multiplicity (snake family) -------------------------------------------------------
 
 
